@@ -13,6 +13,15 @@
       shared atomic stamp counter)
   (5) every history is validated by TLC against the trace spec spec/mon/MonPrim.tla (rules of spec/Primitives.tla)
   (6) binding self-tests: accepted histories are corrupted (one line moved / one field changed) and must be rejected
+  (7) TIME (engine PV): spec/PrimEnc.tla has a clock (ETick: n seconds, the timeout and expiry sweeps of every second),
+      TLC checks the encoding against the textbook objects ACROSS time (a hold ends with its expiry, a released / lapsed
+      unit is free again, Event states lapse with their hold) and generates call sequences with ticks of 1..60 s;
+      those and the directed ones of scenarios/primv_directed.json are replayed by
+      harness/inpkg/server/zz_verif_primv_test.go: the REAL client library over loopback TCP against a REAL Server +
+      leader SLock inside the driver process whose clock the driver advances (sweeps run for every elapsed second), so
+      holds get older than the server's re-check horizon (36 s, long-wait table, key manager moved from the fast slot
+      to the map), lapse while held, waiters time out / are granted after a long time in the queue.  Same event shape
+      plus the second `t`; judged by the same monitor (mode "vt").
 """
 import json, os, random, shutil, socket, subprocess, time, threading
 import vbuild, vtlc, engine, checklib
@@ -23,19 +32,27 @@ PROPS = ["C19"]
 MANIFEST = {
     "C19": dict(
         level="exploration", design="5/C19",
-        technique="TLA+ encoding refinement (TLC exhaustive) + TLC-generated call sequences replayed over TCP + free-running interval histories validated by a TLA+ trace spec",
+        technique="TLA+ encoding refinement (TLC exhaustive, with and without a clock) + TLC-generated call sequences replayed over TCP (real time and virtual time) + free-running interval histories validated by a TLA+ trace spec",
         text="The Go client primitives (Lock, RLock, RWLock, Semaphore, MaxConcurrentFlow, PriorityLock, Event) are driven against a real slock "
              "server process over TCP; every goroutine logs acq_ret after its acquire returned and rel_call before it releases, stamped by one "
              "atomic counter, so two overlapping definitely-held intervals are a real overlap. TLC validates every recorded history against the "
              "textbook admission rules (spec/Primitives.tla via spec/mon/MonPrim.tla). The schedules are free-running (sampled, not enumerated), "
              "hence level 'exploration'; the part that IS exhaustive is the TLC check that each primitive's encoding onto the lock engine "
              "(Count n-1, readers 0xffff / writer 0, Rcount 0xff, priority flag, Event's update/unlock pair) implies its rule for every "
-             "interleaving of 3-4 processes, and TLC-generated behaviours of that model are replayed call by call on the real client+server.",
+             "interleaving of 3-4 processes, and TLC-generated behaviours of that model are replayed call by call on the real client+server. "
+             "ACROSS TIME: the encoding model has a clock (timeout / expiry sweeps per second) and is checked against the textbook objects with "
+             "expiry (a hold ends with its expiry, a released or lapsed unit is free again, Event states lapse with their hold); TLC-generated call "
+             "sequences with clock steps of 1..60 s and directed long-hold sequences are replayed through the real client library over loopback TCP "
+             "against a real Server + leader SLock inside the driver process under a virtual clock (holds past the 36 s re-check horizon and the "
+             "long-wait table, holds lapsing while held, waiters timing out or granted after a long queue time); the same monitor judges them with "
+             "two holder tables (definite / possible holds) aged by the textbook rule.",
         note="Trusted base: Go runtime atomic counter ordering, TLC, the Go driver's bookkeeping (it only records). Assumes holds do not expire "
              "while judged (sessions older than half the 60-240 s expiry are voided, none occurs in practice); PriorityLock hand-over in free "
              "mode uses the server's own LIST_WAIT answer as evidence that a request is queued; replays observe quiescence through the "
-             "server's WaitCount of a private DB. Follower forwarding is exercised with a static leader (no fail-over).",
-        engine="P-lite"),
+             "server's WaitCount of a private DB. Follower forwarding is exercised with a static leader (no fail-over). Virtual-time part: the "
+             "driver's quiescence test (WaitCount + one STATE round trip per connection), vWorld.Tick running the server's own per-second sweeps; "
+             "RWLock objects one of whose reader holds lapsed un-released are not judged on RUnlock (client/rwlock.go names the lapsed LockId).",
+        engine="P-lite + PV"),
 }
 
 KINDS = ["lock", "rlock", "sem", "flow", "rw", "prio", "event_set", "event_clear"]
@@ -63,14 +80,19 @@ ENC_CONST = '''  Keys = {1}
   Turns = {"any"}
   Lag = FALSE
   EKinds = {"lock", "rlock", "sem", "flow", "rw", "prio", "event_set", "event_clear"}
-  ENs = {1, 2, 3}
   EMaxRe = 3
   CMAX = 60
+'''
+UNTIMED = '''  ENs = {1, 2, 3}
+  ETOs = {5}
+  EEXs = {5}
+  ETicks = {}
+  EMaxNow = 0
 '''
 
 ENC_MC = '''SPECIFICATION ESpec
 CONSTANTS
-''' + ENC_CONST + '''  EProcs = {%(procs)s}
+''' + ENC_CONST + UNTIMED + '''  EProcs = {%(procs)s}
   EMaxOps = %(maxops)d
   EPrios = {%(prios)s}
   EMaxSteps = 100
@@ -78,21 +100,62 @@ CONSTANTS
   ETimeouts = TRUE
   A24Fixed = TRUE
 VIEW eview
-INVARIANTS EncStateOK EncUnitsExact EncNothingRefused EncNoLostAdmission EncWaitBlockedOnlyWhenClear
+INVARIANTS EncStateOK EncUnitsExact EncNothingRefused EncNoLostAdmission EncWaitBlockedOnlyWhenClear EncLiveBracket
 PROPERTY EncActionProps
 CHECK_DEADLOCK FALSE
 '''
 
-ENC_SIM = '''SPECIFICATION ESpec
+# the encoding across time, exhaustive: every blocking call waits `to` s, every hold lasts `ex` s, clock steps `ticks`
+ENC_MC_TIME = '''SPECIFICATION ESpec
 CONSTANTS
-''' + ENC_CONST + '''  EProcs = {1, 2, 3, 4}
+''' + ENC_CONST + '''  ENs = {%(ns)s}
+  ETOs = {%(to)s}
+  EEXs = {%(ex)s}
+  ETicks = {%(ticks)s}
+  EMaxNow = %(maxnow)d
+  EProcs = {%(procs)s}
+  EMaxOps = %(maxops)d
+  EPrios = {1, 2}
+  EMaxSteps = 100
+  EMinExport = 1000
+  ETimeouts = FALSE
+  A24Fixed = TRUE
+VIEW eview
+INVARIANTS EncStateOK EncUnitsExact EncNothingRefused EncNoLostAdmission EncWaitBlockedOnlyWhenClear EncLiveBracket
+PROPERTY EncActionProps
+CHECK_DEADLOCK FALSE
+'''
+
+# generator of call sequences with ticks: long holds (past 36 s and 44 s), holds that lapse while held (expiry 8 s),
+# waits that time out (5 s), waits granted after a long time in the queue (timeouts 40 / 70 s)
+ENC_SIM_TIME = '''SPECIFICATION ESpec
+CONSTANTS
+''' + ENC_CONST + '''  ENs = {1, 2, 3}
+  ETOs = {5, 40, 70}
+  EEXs = {8, 50, 150}
+  ETicks = {1, 2, 4, 9, 20, 37, 45, 60}
+  EMaxNow = 900
+  EProcs = {1, 2, 3, 4}
   EMaxOps = 3
   EPrios = {1, 2, 3, 4}
   EMaxSteps = %(steps)d
   EMinExport = %(steps)d
   ETimeouts = FALSE
   A24Fixed = TRUE
-INVARIANTS EncStateOK EncUnitsExact EncNothingRefused EncNoLostAdmission EncWaitBlockedOnlyWhenClear EncExport
+INVARIANTS EncStateOK EncUnitsExact EncNothingRefused EncNoLostAdmission EncWaitBlockedOnlyWhenClear EncLiveBracket EncExport
+CHECK_DEADLOCK FALSE
+'''
+
+ENC_SIM = '''SPECIFICATION ESpec
+CONSTANTS
+''' + ENC_CONST + UNTIMED + '''  EProcs = {1, 2, 3, 4}
+  EMaxOps = 3
+  EPrios = {1, 2, 3, 4}
+  EMaxSteps = %(steps)d
+  EMinExport = %(steps)d
+  ETimeouts = FALSE
+  A24Fixed = TRUE
+INVARIANTS EncStateOK EncUnitsExact EncNothingRefused EncNoLostAdmission EncWaitBlockedOnlyWhenClear EncLiveBracket EncExport
 CHECK_DEADLOCK FALSE
 '''
 
@@ -103,7 +166,10 @@ CONSTANTS
   RProcs = {%(procs)s}
   RMaxDepth = 3
   RPrios = {1, 2, 3}
-INVARIANTS RStateOK RWaitersBlocked RDepthBounded
+  REXs = {%(ex)s}
+  RTOs = {%(to)s}
+  RMaxNow = %(maxnow)d
+INVARIANTS RStateOK RWaitersBlocked RDepthBounded RNoStaleHold RBracket
 CHECK_DEADLOCK FALSE
 '''
 
@@ -215,6 +281,37 @@ def seq_scenarios(behs, seed, port, nshards):
         scs.append(dict(name=name, mode="seq", kind=b["kind"], n=b["n"], G=4, C=rng.randint(1, 4), iters=0, hold_us=0, think_us=0,
                         depth=3, seed=seed, port=port, db=0, dbs=[1 + 15 * sh + j for j in range(15)], key=900000 + seed * 10000 + i,
                         to_s=200, ex_s=400, cuts=0, via="leader", steps=steps))
+    return scs
+
+def directed_vt():
+    with open(os.path.join(VERIF, "scenarios", "primv_directed.json")) as fh:
+        return json.load(fh)
+
+def vt_scenarios(behs, seed):
+    """virtual-time histories: the directed ones (as written) + the TLC-generated call sequences with ticks.
+    Environment drawn per history: connections, size of the fast key table, bystander keys held by another client
+    (a multiple of the table size away = same fast bucket, others elsewhere)."""
+    scs = []
+    for i, d in enumerate(directed_vt()):
+        scs.append(dict(name=d["name"], mode="vt", kind=d["kind"], n=d["n"], G=4, C=1 + i % 3, key=800000 + i,
+                        to_s=d["to"], ex_s=d["ex"], fastkeys=d.get("fastkeys", 64), bys=d.get("bys", []), steps=d["steps"]))
+    for i, b in enumerate(behs):
+        rng = random.Random(f"c19vt-{seed}-{i}")
+        fk = rng.choice([64, 64, 256, 4096])
+        bys = []
+        r = rng.random()
+        if r < 0.25:
+            bys = [rng.choice([1, 2, 3, 5, 17])]
+        elif r < 0.4:
+            bys = [fk * rng.randint(1, 3)] + ([rng.choice([1, 7])] if rng.random() < 0.5 else [])
+        steps = []
+        for st in b["steps"]:
+            if st["op"] == "tick":
+                steps.append(dict(op="tick", n=st["n"], order=st["order"]))
+            else:
+                steps.append(dict(op=st["op"], p=st["p"] - 1, role=st["role"], prio=st["prio"]))
+        scs.append(dict(name=f"tlcvt-{seed}-{i}-{b['kind']}", mode="vt", kind=b["kind"], n=b["n"], G=4, C=rng.randint(1, 4),
+                        key=810000 + seed * 1000 + i, to_s=b["to"], ex_s=b["ex"], fastkeys=fk, bys=bys, steps=steps))
     return scs
 
 # ------------------------------------------------------------------ trace validation (TLC, bounded heap: the machine is shared)
@@ -392,42 +489,144 @@ def corrupt_seq(h):
             return None
     return None
 
-CORRUPTIONS = [("exclusive-overlap", corrupt_exclusive), ("capacity", corrupt_capacity), ("reader-as-writer", corrupt_rw),
+# ---- virtual-time histories (mode "vt")
+
+def _vt(h, kinds=None, events=False):
+    b = h[0]
+    if b.get("mode") != "vt" or h[-1].get("diverged"):
+        return False
+    isev = b["kind"] in ("event_set", "event_clear")
+    if isev != events:
+        return False
+    return kinds is None or b["kind"] in kinds
+
+def corrupt_vt_release(h):
+    """the acknowledged release of a hold that is definitely outstanding (and older than 36 s) is rewritten to UNLOCK_ERROR"""
+    if not _vt(h, ("lock", "rlock", "flow", "rw", "prio")):
+        return None
+    ex, tacq = h[0]["ex"], {}
+    for i, e in enumerate(h):
+        if e["e"] == "acq_ret":
+            tacq[e["g"]] = e["t"]
+        if e["e"] == "rel_ret" and e["ok"] and e["g"] in tacq and 36 < e["t"] - tacq[e["g"]] < ex - 1:
+            return h[:i] + [dict(e, ok=False, res=6)] + h[i + 1:], \
+                f"line {i+1}: the acknowledged release of a hold taken {e['t'] - tacq[e['g']]} s earlier (expiry {ex} s) rewritten to UNLOCK_ERROR"
+    return None
+
+def corrupt_vt_blocked(h):
+    """a waiter that was given the lock by a release is made to stay queued at the next quiescent point"""
+    if not _vt(h, ("lock", "prio")):
+        return None
+    for i, e in enumerate(h):
+        if e["e"] == "rel_ret" and e["ok"]:
+            j = i + 1
+            if j < len(h) - 1 and h[j]["e"] == "acq_ret" and h[j]["g"] != e["g"] and h[j + 1]["e"] == "quiet" and h[j + 1]["prios"] == []:
+                q = h[j]["g"]
+                return h[:j] + [dict(h[j + 1], prios=[q])] + [h[-1]], \
+                    f"line {j+1}: the grant to process {q} after the release of process {e['g']} (second {e['t']}) deleted, the process listed as still queued; rest cut"
+    return None
+
+def corrupt_vt_lapse(h):
+    """the expiry of the history is raised: a hold that had lapsed when the next one was granted then overlaps it"""
+    if not _vt(h, ("lock", "prio")):
+        return None
+    ex, held = h[0]["ex"], {}
+    for i, e in enumerate(h):
+        if e["e"] == "acq_ret":
+            for g, t0 in held.items():
+                if g != e["g"] and e["t"] - t0 > ex + 1:
+                    return [dict(h[0], ex=10000)] + h[1:i + 1] + [h[-1]], \
+                        f"begin.ex changed from {ex} to 10000: the hold of process {g} (second {t0}) is then still outstanding when process {e['g']} is granted at second {e['t']}; rest cut"
+            held[e["g"]] = e["t"]
+        if e["e"] == "rel_call":
+            held.pop(e["g"], None)
+    return None
+
+def corrupt_vt_wait_clear(h):
+    """default-clear event: a Wait that timed out while the event was clear is rewritten to a successful return"""
+    if not _vt(h, ("event_clear",), events=True):
+        return None
+    clear, mark = True, {}
+    for i, e in enumerate(h):
+        t = e["e"]
+        if t in ("set_call", "set_ret"):
+            clear, mark = False, {}
+        elif t == "clear_call":
+            mark = {}
+        elif t == "clear_ret":
+            clear, mark = bool(e["ok"]), {}
+        elif t == "wait_call" and clear:
+            mark[e["g"]] = i
+        elif t == "wait_ret" and not e["ok"] and e["g"] in mark:
+            return h[:i] + [dict(e, ok=True, res=0)] + h[i + 1:], \
+                f"line {i+1}: the TIMEOUT of a Wait called (line {mark[e['g']]+1}) and answered while the event was clear rewritten to success"
+    return None
+
+def corrupt_vt_wait_set(h):
+    """default-set event: a Wait that returned at once while the event was set is made to stay queued"""
+    if not _vt(h, ("event_set",), events=True):
+        return None
+    isset = True
+    for i, e in enumerate(h):
+        t = e["e"]
+        if t in ("clear_call", "clear_ret"):
+            isset = False
+        elif t == "set_ret":
+            isset = bool(e["ok"])
+        elif t == "wait_call" and isset and i + 2 < len(h) and h[i + 1]["e"] == "wait_ret" and h[i + 1]["ok"] \
+                and h[i + 2]["e"] == "quiet" and h[i + 2]["prios"] == []:
+            return h[:i + 1] + [dict(h[i + 2], prios=[e["g"]])] + [h[-1]], \
+                f"line {i+2}: the return of a Wait called while the event was set deleted, the process listed as still queued; rest cut"
+    return None
+
+VT_EXPECT = {"vt-release-refused": {"release-refused-while-held"}, "vt-blocked-although-free": {"blocked-although-free"},
+             "vt-lapsed-hold-overlaps": {"lock-not-exclusive", "prioritylock-not-exclusive"},
+             "vt-wait-returned-while-clear": {"wait-returned-while-clear"}, "vt-wait-blocked-while-set": {"wait-blocked-while-set"}}
+
+CORRUPTIONS = [("vt-release-refused", corrupt_vt_release), ("vt-blocked-although-free", corrupt_vt_blocked),
+               ("vt-lapsed-hold-overlaps", corrupt_vt_lapse), ("vt-wait-returned-while-clear", corrupt_vt_wait_clear),
+               ("vt-wait-blocked-while-set", corrupt_vt_wait_set),
+               ("exclusive-overlap", corrupt_exclusive), ("capacity", corrupt_capacity), ("reader-as-writer", corrupt_rw),
                ("rlock-unlock-refused", corrupt_rlock), ("priority-handover", corrupt_prio), ("event-set-after-wait", corrupt_event),
                ("replay-missing-release", corrupt_seq)]
 
 def selftests(traces, workdir):
+    """every corrupted history goes into ONE trace file (histories are independent: the monitor starts afresh at every
+    `begin`), told apart by a private idx; one TLC run judges them all"""
     hists = []
     for tr in traces:
         hists += split_histories(tr)
-    res, files = [], []
-    for name, fn in CORRUPTIONS:
-        found = None
-        for h in hists:
-            if len(h) > 6000:
+    res = []
+    p = os.path.join(workdir, "selftest_corrupted.ndjson")
+    n = 0
+    with open(p, "w") as fh:
+        for k, (name, fn) in enumerate(CORRUPTIONS):
+            found = None
+            for h in hists:
+                if len(h) > 6000:
+                    continue
+                r = fn(h)
+                if r:
+                    found = r
+                    break
+            if not found:
+                res.append({"selftest": name, "corruption": None, "rejected": None})
                 continue
-            r = fn(h)
-            if r:
-                found = r
-                break
-        if not found:
-            res.append({"selftest": name, "corruption": None, "rejected": None})
-            continue
-        hh, desc = found
-        p = os.path.join(workdir, f"selftest_{name}.ndjson")
-        with open(p, "w") as fh:
+            hh, desc = found
+            idx = 900000 + k
+            hh = [dict(hh[0], idx=idx)] + hh[1:-1] + [dict(hh[-1], idx=idx)]
             for e in hh:
                 fh.write(json.dumps(e) + "\n")
-        files.append(p)
-        res.append({"selftest": name, "corruption": desc, "file": p})
-    if files:
-        viols, _ = monitor(files, os.path.join(workdir, "selftest"), par=7, heap="512m")
+            n += 1
+            res.append({"selftest": name, "corruption": desc, "history": hh[0]["name"], "idx": idx})
+    if n:
+        viols, _ = monitor([p], os.path.join(workdir, "selftest"), par=1, heap="1g")
         for r in res:
-            if r.get("file"):
-                codes = sorted({v["code"] for v in viols if v["file"] == r["file"]})
-                r["rejected"] = len(codes) > 0
+            if r.get("idx"):
+                codes = sorted({v["code"] for v in viols if v.get("trace") == r["idx"]})
+                r["rejected"] = len(codes) > 0 if r["selftest"] not in VT_EXPECT else bool(VT_EXPECT[r["selftest"]] & set(codes))
                 r["codes"] = codes
-                del r["file"]
+                del r["idx"]
     return res
 
 # ------------------------------------------------------------------ the check
@@ -439,7 +638,7 @@ def run(prop, tier, seed):
     nodes = []
     th = threading.Thread(target=lambda: None)
     th.start()
-    th_sim = th
+    th_sim = th_time = th_simt = th_bv = th
     try:
         quick = tier == "quick"
         T = {}
@@ -453,12 +652,43 @@ def run(prop, tier, seed):
                 cfg = ENC_MC % ({"procs": "1, 2, 3", "maxops": 2, "prios": "1, 2"} if quick else {"procs": "1, 2, 3, 4", "maxops": 2, "prios": "1, 2"})
                 tlc["enc"] = vtlc.run_tlc(SPECDIRS[0], "PrimEnc", cfg, os.path.join(wd, "mc_enc"), workers=min(4 if quick else 8, engine.NCPU),
                                           timeout=900 if quick else 3000, heap="1g" if quick else "3g")
-                cfg = REF_MC % {"procs": "1, 2, 3" if quick else "1, 2, 3, 4"}
+                cfg = REF_MC % {"procs": "1, 2, 3" if quick else "1, 2, 3, 4", "ex": 5, "to": 5, "maxnow": 0}
                 tlc["ref"] = vtlc.run_tlc(SPECDIRS[0], "PrimitivesRef", cfg, os.path.join(wd, "mc_ref"), workers=2, timeout=600, heap="512m")
             except Exception as ex:      # reported by the main thread
                 tlc["error"] = ex
+        # (7) the encoding and the reference ACROSS TIME, exhaustive (own thread: as long as the untimed pair)
+        def design_time():
+            try:
+                if quick:
+                    tcfg = [dict(procs="1, 2", maxops=2, ns="1, 2", to=1, ex=2, ticks="1, 2", maxnow=4)]
+                else:
+                    tcfg = [dict(procs="1, 2", maxops=2, ns="1, 2", to=2, ex=3, ticks="1, 3", maxnow=7),
+                            dict(procs="1, 2, 3", maxops=1, ns="1, 2", to=1, ex=2, ticks="1, 2", maxnow=4)]
+                tlc["enc_time"] = []
+                for k, c in enumerate(tcfg):
+                    r = vtlc.run_tlc(SPECDIRS[0], "PrimEnc", ENC_MC_TIME % c, os.path.join(wd, f"mc_enc_time{k}"), workers=min(4 if quick else 8, engine.NCPU),
+                                     timeout=900 if quick else 3000, heap="1g" if quick else "3g")
+                    tlc["enc_time"].append((c, r))
+                cfg = REF_MC % ({"procs": "1, 2", "ex": 2, "to": 1, "maxnow": 4} if quick else {"procs": "1, 2, 3", "ex": 2, "to": 1, "maxnow": 4})
+                tlc["ref_time"] = vtlc.run_tlc(SPECDIRS[0], "PrimitivesRef", cfg, os.path.join(wd, "mc_ref_time"), workers=2, timeout=900, heap="1g")
+            except Exception as ex:
+                tlc["error"] = ex
         nb = 100 if quick else 3000
+        nbt = 120 if quick else 2000
         steps = 14 if quick else 18
+        def simulate_time():
+            try:
+                tlc["simt"] = vtlc.run_tlc(SPECDIRS[0], "PrimEnc", ENC_SIM_TIME % {"steps": steps}, os.path.join(wd, "simt"), workers=1, timeout=900, heap="512m",
+                                           simulate=f"num={nbt * 2}", depth=steps + 2, seed=seed)
+            except Exception as ex:
+                tlc["simt_error"] = ex
+        bv = {}
+        def build_vt():
+            try:
+                bv["bin"] = vbuild.build_inpkg("server", os.path.join(wd, "bv"))
+            except Exception as ex:
+                bv["error"] = ex
+        os.makedirs(os.path.join(wd, "bv"))
         def simulate():
             try:
                 tlc["sim"] = vtlc.run_tlc(SPECDIRS[0], "PrimEnc", ENC_SIM % {"steps": steps}, os.path.join(wd, "sim"), workers=1, timeout=900, heap="512m",
@@ -469,6 +699,12 @@ def run(prop, tier, seed):
         th.start()
         th_sim = threading.Thread(target=simulate)
         th_sim.start()
+        th_simt = threading.Thread(target=simulate_time)
+        th_simt.start()
+        th_bv = threading.Thread(target=build_vt)
+        th_bv.start()
+        th_time = threading.Thread(target=design_time)
+        th_time.start()
         # (2) the real system
         srv = build_server(wd)
         binp = vbuild.build_inpkg("client", wd)
@@ -515,9 +751,22 @@ def run(prop, tier, seed):
         res_seq = engine.run_harness(binp, "TestVerifPrim", seqs, os.path.join(wd, "run_seq"), tag="q", nshards=nshards, timeout=900,
                                      extra_env={"VERIF_PRIM_PAR": "4"})
         lap("run_seq")
+        # (7) virtual-time histories
+        th_simt.join()
+        if "simt_error" in tlc:
+            raise tlc["simt_error"]
+        behs_t = behaviours(tlc["simt"]["out"], seed, nbt)
+        if len(behs_t) < 20:
+            raise InfraError("behaviour generation (with ticks) produced too few behaviours:\n" + tlc["simt"]["out"][-2000:])
+        vts = vt_scenarios(behs_t, seed)
+        th_bv.join()
+        if "error" in bv:
+            raise bv["error"]
+        res_vt = engine.run_harness(bv["bin"], "TestVerifPrimV", vts, os.path.join(wd, "run_vt"), tag="v", nshards=nshards, timeout=600)
+        lap("run_vt")
         run_wall = time.time() - t_run
         traces = []
-        for fin, fout, p in res_free + res_seq:
+        for fin, fout, p in res_free + res_seq + res_vt:
             if p is not None:
                 alive = all(nd.alive() for nd in nodes)
                 raise InfraError(f"driver failed on {fin} (server processes alive: {alive}):\n" + (p.stdout or "")[-3000:] + (p.stderr or "")[-1500:])
@@ -539,7 +788,7 @@ def run(prop, tier, seed):
         traces = merged
         viols, mst = monitor(traces, os.path.join(wd, "mon"))
         lap("monitor")
-        byname = {sc["name"]: sc for sc in free + seqs}
+        byname = {sc["name"]: sc for sc in free + seqs + vts}
         for v in viols:
             if v["prop"] == prop:
                 out.viols.append((v, byname.get(v.get("name"))))
@@ -548,6 +797,12 @@ def run(prop, tier, seed):
                  "quiet_points": 0, "divergences": 0, "incomplete": 0, "max_goroutines": 0, "max_connections": 0, "histories_with_overlap": 0,
                  "by_kind": {k: 0 for k in KINDS}, "via_follower": 0, "with_cuts": 0, "release_refused": 0,
                  "divergence_samples": [], "slowest_history_ms": 0, "slowest_history": ""}
+        # what the virtual-time histories reached (all measured from the recorded events)
+        vstat = {"histories": 0, "directed": 0, "tlc_generated": 0, "virtual_seconds": 0, "ticks": 0, "longest_tick_s": 0,
+                 "releases_of_holds_older_than_36s": 0, "releases_of_holds_older_than_44s": 0, "oldest_released_hold_s": 0,
+                 "holds_lapsed_while_held": 0, "acquire_timeouts": 0, "grants_after_more_than_36s_queued": 0, "longest_queued_grant_s": 0,
+                 "event_calls_after_more_than_36s": 0, "wait_timeouts": 0, "waits_returned_after_more_than_36s": 0,
+                 "with_bystander_keys": 0, "with_colliding_bystander": 0, "release_refused": 0, "by_kind": {k: 0 for k in KINDS}}
         distinct = set()
         samples = []
         for tr in traces:
@@ -589,6 +844,45 @@ def run(prop, tier, seed):
                     elif t == "quiet":
                         stats["quiet_points"] += 1
                 stats["histories_with_overlap"] += mx >= 2
+                if b.get("mode") == "vt":
+                    vstat["histories"] += 1
+                    vstat["directed" if b["name"].startswith("dvt-") else "tlc_generated"] += 1
+                    vstat["by_kind"][b["kind"]] += 1
+                    vstat["virtual_seconds"] += e.get("t_end", 0)
+                    sc0 = byname.get(b["name"], {})
+                    vstat["with_bystander_keys"] += bool(sc0.get("bys"))
+                    vstat["with_colliding_bystander"] += any(o % sc0.get("fastkeys", 64) == 0 for o in sc0.get("bys", []))
+                    tacq, tcall, last_ev = {}, {}, None
+                    for ev in h[1:-1]:
+                        t, g, now = ev["e"], ev["g"], ev["t"]
+                        for gg in [x for x in tacq if now - tacq[x] > b["ex"] + 1]:
+                            vstat["holds_lapsed_while_held"] += 1
+                            del tacq[gg]
+                        if t == "tick":
+                            vstat["ticks"] += 1; vstat["longest_tick_s"] = max(vstat["longest_tick_s"], ev["prio"])
+                        elif t in ("acq_call", "wait_call"):
+                            tcall[g] = now
+                        elif t == "acq_ret":
+                            tacq[g] = now
+                            q = now - tcall.get(g, now)
+                            vstat["grants_after_more_than_36s_queued"] += q > 36
+                            vstat["longest_queued_grant_s"] = max(vstat["longest_queued_grant_s"], q)
+                        elif t == "acq_fail":
+                            vstat["acquire_timeouts"] += ev["res"] == 8
+                        elif t == "rel_ret" and g in tacq:
+                            age = now - tacq[g]
+                            vstat["releases_of_holds_older_than_36s"] += age > 36
+                            vstat["releases_of_holds_older_than_44s"] += age > 44
+                            vstat["oldest_released_hold_s"] = max(vstat["oldest_released_hold_s"], age)
+                            vstat["release_refused"] += not ev["ok"]
+                            if ev["ok"] and b["kind"] != "rlock":
+                                del tacq[g]
+                        elif t in ("set_ret", "clear_ret"):
+                            vstat["event_calls_after_more_than_36s"] += last_ev is not None and now - last_ev > 36
+                            last_ev = now
+                        elif t == "wait_ret":
+                            vstat["wait_timeouts"] += not ev["ok"]
+                            vstat["waits_returned_after_more_than_36s"] += ev["ok"] and now - tcall.get(g, now) > 36
                 if len(h) > 6:
                     distinct.add(hash(tuple(sig)))
                 if len(samples) < 3 and len(h) > 10 and b["mode"] == ("free" if len(samples) != 1 else "seq"):
@@ -605,32 +899,41 @@ def run(prop, tier, seed):
         lap("selftest")
         # (1) results of the design checks
         th.join()
+        th_time.join()
         lap("design_join")
         if "error" in tlc:
             raise tlc["error"]
         model = {}
         nstates = ngen = 0
-        for key, mod in (("enc", "spec/PrimEnc.tla"), ("ref", "spec/PrimitivesRef.tla")):
-            r = tlc[key]
+        runs = [("enc", "spec/PrimEnc.tla", tlc["enc"], None), ("ref", "spec/PrimitivesRef.tla", tlc["ref"], None),
+                ("ref_time", "spec/PrimitivesRef.tla", tlc["ref_time"], "the textbook objects across time (expiry 2 s, timeout 1 s, clock 0..4)")]
+        for k, (c, r) in enumerate(tlc["enc_time"]):
+            runs.append((f"enc_time{k}", "spec/PrimEnc.tla", r, "the encoding across time: %s processes, %d calls each, n in {%s}, timeout %s s, expiry %s s, clock steps {%s} up to second %d"
+                         % (c["procs"].count(",") + 1, c["maxops"], c["ns"], c["to"], c["ex"], c["ticks"], c["maxnow"])))
+        for key, mod, r, what in runs:
             st = vtlc.parse_stats(r["out"])
             if r["rc"] == -9:
                 raise InfraError(f"TLC timed out on {mod}")
             if st is None or "No error has been found" not in r["out"]:
                 raise InfraError(f"exhaustive check of {mod} did not complete cleanly (design model, not a verdict on the code):\n" + r["out"][-3000:])
             model[key] = {"module": mod, "distinct_states": st["distinct"], "generated": st["generated"], "wall_s": round(r["wall"], 1)}
+            if what:
+                model[key]["constants"] = what
             nstates += st["distinct"]; ngen += st["generated"]
         model["enc"]["constants"] = "8 primitive kinds, n in 1..3, %d processes, 2 acquire/wait calls each, RLock depth <= 3, priorities 1..2" % (3 if quick else 4)
         model["enc"]["invariants"] = ["EncStateOK", "EncUnitsExact", "EncNothingRefused", "EncNoLostAdmission", "EncWaitBlockedOnlyWhenClear",
-                                      "EncGrantAdmissible", "EncHandOver", "EncWaitReturnsOnlyWhenSet", "EncWaitImmediateOnlyWhenSet"]
+                                      "EncLiveBracket", "EncGrantAdmissible", "EncHandOver", "EncWaitReturnsOnlyWhenSet", "EncWaitImmediateOnlyWhenSet"]
         out.coverage = {
-            "evaluations": len(free) + len(seqs), "distinct_nontrivial": len(distinct),
+            "evaluations": len(free) + len(seqs) + len(vts), "distinct_nontrivial": len(distinct),
             "rule": "one evaluation = one history recorded from the real client+server (free-running: G goroutines x iters acquire/release cycles on one shared key; "
-                    "seq: one TLC-generated call sequence of 4 processes) and validated by the TLA+ trace spec; distinct = distinct event sequences "
+                    "seq: one TLC-generated call sequence of 4 processes; vt: one call sequence with clock steps replayed on the in-process server under the virtual clock) "
+                    "and validated by the TLA+ trace spec; distinct = distinct event sequences "
                     "(event type, goroutine, role, outcome) with more than 4 events",
             "samples": samples, "exhaustive": False,
-            "states": nstates, "transitions": ngen, "traces_validated_against_impl": len(free) + len(seqs),
+            "states": nstates, "transitions": ngen, "traces_validated_against_impl": len(free) + len(seqs) + len(vts),
             "model": model,
             "free_running_histories": len(free), "tlc_behaviours_replayed": len(seqs), "driver_wall_s": round(run_wall, 1),
+            "virtual_time_histories": vstat,
             "monitor": {"module": "spec/mon/MonPrim.tla", "events": mst["events"], "monitor_states": mst["monitor_states"]},
             "history_stats": stats, "phase_wall_s": T,
             "selftest": stest,
@@ -642,10 +945,14 @@ def run(prop, tier, seed):
             "after a connection cut the outcome of in-flight calls is uncertain: such holds are dropped from the monitor's table (never added), wait-list observations and the final probe of that history are not judged",
             "Event: a Wait is judged only against intervals in which the event was definitely clear (a Clear returned, no Set overlapped or followed)",
             "the follower forwards to a static leader; fail-over during a history is not exercised here (C10/C12)",
+            "virtual-time histories (mode vt): calls are issued one at a time; a hold counts as outstanding while younger than its expiry, as gone once older "
+            "than expiry + 1 s, nothing is claimed in between; Semaphore units are anonymous (the definite holds keep the oldest ages, the possible holds the newest); "
+            "an Event state that is a hold (Clear of a default-set event, Set of a default-clear event) lapses with that hold; the in-process server has one "
+            "database and no follower; TokenBucketFlow is not driven (it reads the wall clock in the client)",
         ]
         return out
     finally:
-        for t in (th, th_sim):
+        for t in (th, th_sim, th_time, th_simt, th_bv):
             try:
                 t.join()
             except Exception:
